@@ -50,3 +50,8 @@ claim("C03",
   text="Decides the rejection and leniency machinery visible in code shape, over everything reachable from JSONToProto/QueryToProto/DecodeAnyTo: (E1) no return with a nil error inside `if err != nil`; (E2) no dropped error results; (E3) the zero protoreflect.Value with a nil error only under a nil-input guard; (E4) a table of required rejections matched structurally — multiple oneof keys and a contradicting \"!type\" (outside the member callback, so independent of member order), duplicate key, non-string key, delimiter where a scalar is expected (3 sites), non-string enum tokens (2), Any without type/value or with two values, unknown enum name; (F1) per scalar kind the accepted token types include the documented quoted and bare spellings; (F2) strconv bit sizes equal the constructor width and int64→32-bit/unsigned narrowings have range tests; leniency constants (base64 alphabet mapping + padding + StdEncoding, enum prefix stripping, RFC3339 layout); query parameters reuse the JSON scalar setters.",
   note="Not decided: that the stored value equals the denoted one (strconv/base64/time/decimal semantics are trusted), numeric precision, encoding/json's tokenizer, uint64 above MaxInt64 sent bare (json.Number.Int64 fails: rejected, not silently wrong — DESIGN.md D26). E4 matchers recognise the if-forms listed in props/c03.go; a different but equivalent form is reported as missing and must be added there.",
   technique="error-discipline dataflow over the VTA-reachable set; structural required-guard matching; acceptance-matrix and bit-size extraction from type switches; constant extraction")
+
+claim("C01",
+  text="Decides structural necessary conditions of decode(encode(m)) = m: (F1p) for each scalar kind the token class the encoder writes for the Go type scalarGoFromReflect returns is accepted by that kind's arm of scalarReflectFromGo (13 kind/format pairs, classes derived from emitter bodies and type-switch case lists); (W5) every label and string goes through the escaper; (W6) \"!type\"/\"value\" framing constants agree between encoder and decoder; (W2) date, timestamp and base64 renderings are the forms the parsers re-read; (X4) encodeValue's interface dispatch order versus the roles each Field implementation declares; (X2) decodeValue covers all PropertyType constants; (X1) property.PropertyType covers every FieldSchema implementation; (X4u) every map implementation matches exactly one decodeMapField case; (X3a) every array implementation declares a role the decoder probes; (R-WHO) the codec never touches proto fields except through j5reflect's property paths.",
+  note="Not decided: equality of decode(encode(m)) with m for any value, presence semantics of zero values, float text round trip, decimal numeric comparison. Each rule is a necessary condition: breaking it breaks the round trip for some message; passing them does not prove it.",
+  technique="encode/decode matrix extraction from type switches and emitter bodies; dispatch-order and exhaustiveness checks over go/types universes; constant agreement; who-may-call")
